@@ -8,7 +8,8 @@ import AlphaG.Generated.Calibration
 /-
 Model of `MainEvent::try_from_banks` and `MainEvent::timestamp` (physics/src/lib.rs) and of the six
 calibration lookups `try_{wire,pad}_{baseline,gain,delay}` (physics/src/calibration/**),
-statement by statement in the order of the Rust code (tree with the pad path widened to `i32`).
+statement by statement in the order of the Rust code (tree with the pad path widened to `i32`
+and with the repairs of findings F6, commit 851d684, and F10, commit 509cd0e).
 
 Reused models (nothing is re-modelled here): `BankName.parseBankName` (C08), `Adc.decodeAdcPacket`
 (C02), `Chunk.decodeChunk` + `toChunkV` (C03/C01), `Pwb.reassemble`, `Pwb.waveformAt` (C04/C05),
@@ -19,7 +20,7 @@ Modelling decisions
   is compared by value (`alpha16Boards[row]? = packet.boardId`), and handed to the maps as the
   row its name resolves to.
 * `pwb_chunks_map : HashMap<(BoardId, AfterId), Vec<Chunk>>` is an association list in order of
-  first insertion (`pushChunk`); each `Vec` is in push order. `into_values()` yields the values in
+  first insertion (`pushChunk`); each `Vec` is in push order. Iterating the map yields the entries in
   an unspecified order: `GroupOrder` is an *arbitrary permutation* of that list, a parameter of
   the model (`buildEventWith`); the executable instance `GroupOrder.id` keeps insertion order.
 * The signal arrays are `Array (Option (List α))` of sizes 256 and 32·576 (pad `(column, row)` at
@@ -171,6 +172,8 @@ structure St (α : Type) where
   pad : Array (Option (List α))
   ts : Option Nat
   groups : List Group
+  /-- `wire_bank_names`: the `Adc32BankName`s seen so far as (board row, channel) -/
+  wireNames : List (Nat × Nat)
 
 def nWires : Nat := 256
 def nPadColumns : Nat := 32
@@ -179,7 +182,7 @@ def nPadRows : Nat := 576
 /-- `[(); N].map(|_| None)`, `None`, `HashMap::new()`. -/
 def St.init {α : Type} : St α :=
   { wire := Array.replicate nWires none, pad := Array.replicate (nPadColumns * nPadRows) none,
-    ts := none, groups := [] }
+    ts := none, groups := [], wireNames := [] }
 
 /-- Order in which `HashMap::into_values()` yields the groups: any permutation. -/
 structure GroupOrder where
@@ -243,17 +246,25 @@ def wireStore (ops : Ops α) (run : Nat) (board ch : Nat) (wf : List Int) (st : 
           .ok (if (calibrate ops bl (ops.ofBits g) d wf).isEmpty then st
                else { st with wire := st.wire.setIfInBounds w (some (calibrate ops bl (ops.ofBits g) d wf)) })
 
-/-- Body of the arm after `AdcPacket::try_from(data_slice)?` succeeded with `p`. -/
+/-- `packet.board_id().unwrap_or(bank_name.board_id())`: a suppressed packet carries no board id. -/
+def boardOf (nm : BankName.Name) (p : Adc.Packet) : Option (String × List Nat) :=
+  match p.boardId with
+  | some x => some x
+  | none => alpha16Boards[nm.board]?
+
+/-- Body of the arm after `AdcPacket::try_from(data_slice)?` succeeded with `p` (tree with the
+repair of finding F6: the name, BV and id checks come before the `is_empty` test). -/
 def wirePacket (ops : Ops α) (run : Nat) (nm : BankName.Name) (p : Adc.Packet) (st : St α) :
     Outcome Err (St α) :=
-  if p.waveform.isEmpty then .ok st else
-  -- `packet.board_id().unwrap()`
-  need "event:board_id().unwrap()" p.boardId.isSome <|
+  -- `wire_bank_names.contains(&bank_name)`, then `push`
+  if st.wireNames.contains (nm.board, nm.channel) then .err .duplicateWireBank else
   match p.channelId with
   | .a16 _ => .err .wireBankWithBvChannel
   | .a32 ch =>
-    if (alpha16Boards[nm.board]?, nm.channel) ≠ (p.boardId, ch) then .err .alpha16IdMismatch else
-    wireStore ops run (a16Row p.boardId) ch p.waveform st
+    if (alpha16Boards[nm.board]?, nm.channel) ≠ (boardOf nm p, ch) then .err .alpha16IdMismatch else
+    if p.waveform.isEmpty then .ok { st with wireNames := st.wireNames ++ [(nm.board, nm.channel)] } else
+    wireStore ops run (a16Row (boardOf nm p)) ch p.waveform
+      { st with wireNames := st.wireNames ++ [(nm.board, nm.channel)] }
 
 def wireBank (ops : Ops α) (run : Nat) (nm : BankName.Name) (data : List UInt8) (st : St α) :
     Outcome Err (St α) :=
@@ -336,8 +347,8 @@ def padStore (ops : Ops α) (run : Nat) (board chip ch : Nat) (wf : List Int)
                else pad.setIfInBounds (pos.1 * nPadRows + pos.2)
                  (some (calibrate ops bl (ops.ofBits g) d wf)))
 
-/-- `for &channel_id in packet.channels_sent()`. -/
-def channelLoop (ops : Ops α) (run : Nat) (p : Pwb.PwbPacket) :
+/-- `for &channel_id in packet.channels_sent()`; `board`, `chip` are the group key's. -/
+def channelLoop (ops : Ops α) (run board chip : Nat) (p : Pwb.PwbPacket) :
     List Pwb.ChannelId → Array (Option (List α)) → Outcome Err (Array (Option (List α)))
   | [], pad => .ok pad
   | .pad n :: cs, pad =>
@@ -346,25 +357,48 @@ def channelLoop (ops : Ops α) (run : Nat) (p : Pwb.PwbPacket) :
     | .err _ => .panic "model:waveform_at-err"
     | .ok none => .panic "event:waveform_at().unwrap()"
     | .ok (some wf) =>
-      match padStore ops run (pwbRow p) p.afterId n wf pad with
-      | .ok pad' => channelLoop ops run p cs pad'
+      match padStore ops run board chip n wf pad with
+      | .ok pad' => channelLoop ops run board chip p cs pad'
       | .err e => .err e
       | .panic s => .panic s
-  | _ :: cs, pad => channelLoop ops run p cs pad
+  | _ :: cs, pad => channelLoop ops run board chip p cs pad
 
-/-- One iteration of `for chunks in pwb_chunks_map.into_values()`. -/
-def groupStep (ops : Ops α) (run : Nat) (chunks : List Pwb.ChunkV)
+/-- `AfterId` as the chip number 0..3. -/
+def afterNum : Chunk.AfterId → Nat
+  | .A => 0
+  | .B => 1
+  | .C => 2
+  | .D => 3
+
+/-- Row of `PADWING_BOARDS` of the key's `BoardId`. -/
+def keyRow (k : Key) : Nat := (k.1.bind (fun b => Maps.pwbBoardIdx b.1)).getD 0
+
+/-- Chip number of the key's `AfterId`. -/
+def keyChip (k : Key) : Nat :=
+  match k.2 with
+  | some a => afterNum a
+  | none => 0
+
+/-- `packet.board_id()` as the `PADWING_BOARDS` triplet. -/
+def packetBoard (p : Pwb.PwbPacket) : Chunk.Board := (p.boardName, p.mac, p.deviceId)
+
+/-- One iteration of `for ((board_id, after_id), chunks) in pwb_chunks_map` (tree with the repair
+of finding F10, commit 509cd0e: the packet must agree with the key of its chunks). -/
+def groupStep (ops : Ops α) (run : Nat) (g : Group)
     (pad : Array (Option (List α))) : Outcome Err (Array (Option (List α))) :=
-  match Pwb.reassemble chunks with
+  match Pwb.reassemble g.2 with
   | .panic s => .panic s
   | .err e => .err (.badPadwing e)
-  | .ok p => channelLoop ops run p p.channelsSent pad
+  | .ok p =>
+    if some (packetBoard p) ≠ g.1.1 then .err .padwingBoardIdMismatch else
+    if Chunk.afterOfNat p.afterId ≠ g.1.2 then .err (.badPadwing .channelIdMismatch) else
+    channelLoop ops run (keyRow g.1) (keyChip g.1) p p.channelsSent pad
 
 def groupLoop (ops : Ops α) (run : Nat) :
     List Group → Array (Option (List α)) → Outcome Err (Array (Option (List α)))
   | [], pad => .ok pad
   | g :: gs, pad =>
-    match groupStep ops run g.2 pad with
+    match groupStep ops run g pad with
     | .ok pad' => groupLoop ops run gs pad'
     | .err e => .err e
     | .panic s => .panic s
